@@ -187,6 +187,8 @@ def gen_cases(ctx):
                              nsurf=rng.randint(1, 12) if rng.random() < 0.8 else rng.randint(1, 3))
         if rng.random() < 0.15:   # steep rays, misses, TIR
             d['aperture'] = ['EPD', lensgen.dyadic(rng, 10, 60, 2)]
+        if rng.random() < 0.25:   # same prescription reached through set_radius / set_conic
+            d['via_setters'] = True
         out.append({'desc': d, 'Hy': rng.choice([0.0, 1.0, -1.0, rng.uniform(-1, 1)]), 'nray': nray,
                     'seed': rng.randint(0, 10 ** 9), 'wi': rng.randint(0, 2)})
     return out
